@@ -90,6 +90,7 @@ type RawLemma struct {
 	File   string
 	GenName string
 	Reveal []string
+	TimeoutS int
 }
 
 var reFuncHdr = regexp.MustCompile(`^func\s*(\(([^)]*)\))?\s*([A-Za-z_][A-Za-z0-9_]*)\s*\(([^)]*)\)\s*(.*)$`)
@@ -216,6 +217,8 @@ func parseContractFile(path string) (*ContractFile, error) {
 					curLemma.Props = strings.Fields(strings.ReplaceAll(rest, ",", " "))
 				case "reveal":
 					curLemma.Reveal = append(curLemma.Reveal, strings.Fields(strings.ReplaceAll(rest, ",", " "))...)
+				case "timeout":
+					fmt.Sscanf(rest, "%d", &curLemma.TimeoutS)
 				default:
 					return fmt.Errorf("%s:%d: unknown lemma clause %q", path, ln, word)
 				}
